@@ -44,6 +44,24 @@ func C14NotationBytes() {
 	}
 	switch name {
 	case "literal":
+		// the literal text: the rest of the line after the first argument
+		i := 0
+		for i < len(args) && asciiSpace(args[i]) {
+			i++
+		}
+		for i < len(args) && !asciiSpace(args[i]) {
+			i++
+		}
+		for i < len(args) && asciiSpace(args[i]) {
+			i++
+		}
+		if !vrt.ParsesAsExpr(args[i:]) {
+			// not a Go expression: refused where it is written, not later by the formatter
+			vrt.Assert("malformed-literal-rejected", res.Err != "")
+			vrt.AssertMsg("rejection-has-diagnostic", strings.Contains(stderr, "literal"), stderr)
+			vrt.Reach("rejected")
+			return
+		}
 		vrt.AssertMsg("literal-accepted", res.Err == "" && len(res.Literals) == 1, res.Err)
 		if len(res.Literals) == 1 {
 			vrt.AssertMsg("literal-destination-is-first-argument", res.Literals[0][0] == fields[0], res.Literals[0][0])
@@ -91,6 +109,11 @@ func C14NotationBytes() {
 				valid = false
 			}
 		}
+		for _, kw := range []string{"if", "go", "for", "var", "map", "func", "type", "case", "else", "goto", "chan", "break", "const", "defer", "range"} {
+			if id == kw {
+				valid = false
+			}
+		}
 		if !valid {
 			vrt.Assert("receiver-that-is-no-identifier-rejected", res.Err != "")
 		} else if !strings.Contains(id, "_") {
@@ -106,3 +129,5 @@ func C14NotationBytes() {
 	}
 	vrt.Reach("end")
 }
+
+func asciiSpace(c byte) bool { return c == ' ' || c >= '\t' && c <= '\r' }
